@@ -130,6 +130,15 @@ def scenarios(rng: random.Random, tier: str):
     pre0 = cfg + " | start | acc | rx 0 " + nodegen.cer("peer1.x", "4", n(), n())
     for hb, ee in ((0, n()), (n(), 0), (0, 0), (4294967295, 4294967295), (1, 1)):
         out.append(pre0 + f" | rx 0 {nodegen.ccr(hb, ee, 'peer1.x')} | ans 0 0 2001 | ans 0 0 2001")
+    # requests of a command without typed class (with and without Session-Id): answered, answered again, answered after the
+    # requester has gone / sent a DPR - the failing submissions fail with the not-routable error like any other
+    for sid in ("sid=s;9,", ""):
+        def un():
+            return f"UN:128:4:{n()}:{n()}:{sid}oh=peer1.x,or=realm.local,dr=realm.local"
+        out.append(pre0 + f" | rx 0 {un()} | ans 0 0 2001 | ans 0 0 2001")
+        out.append(pre0 + f" | rx 0 {un()} | eof 0 | ans 0 0 2001")
+        out.append(pre0 + f" | rx 0 {un()} | rx 0 {nodegen.dpr(n(), n(), 'peer1.x')} | ans 0 0 2001")
+        out.append(pre0 + f" | rx 0 {un()} | rx 0 {nodegen.ccr(n(), n(), 'peer1.x')} | ans 0 1 2001 | ans 0 0 2001 | ans 0 1 2001")
     # a peer with two established connections (overlapping reconnect): requests pending on both, the DPR arrives on one of
     # them; the answer for the request on that one is not routable, the other connection still gets its answer
     for dpr_on in (0, 1):
